@@ -110,6 +110,7 @@ def _one(pid, m, repo):
                 results.append((m['name'], 'skipped', 'mutant does not compile: ' + se[-300:]))
                 return results
             env = dict(os.environ, BLOCH_REPO=tmp, BLOCHSA_EVIDENCE_DIR=os.path.join(tmp, 'ev'))
+            env.pop('BLOCHSA_REEXEC', None)      # (the sub-run starts under the system python again and must be free to re-exec into the tooling venv)
             r = subprocess.run([os.path.join(VERIF, 'check'), pid, '--tier', 'quick'], capture_output=True, text=True, env=env)
             out = r.stdout
             if m['kind'] == 'mutant':
